@@ -292,6 +292,18 @@ class ModuleInfo:
     assigns: Dict[str, ast.AST] = field(default_factory=dict)  # module-level NAME = expr
 
 
+def canonical_branches(tree: ast.AST) -> ast.AST:
+    """`if not X: A else: B` and `if X: B else: A` are one program.  The rules are written for one of the two shapes; the tree is
+    brought into the shape whose test is not a negation before anything looks at it (line numbers stay with the statements)."""
+    class _Canon(ast.NodeTransformer):
+        def visit_If(self, node: ast.If):
+            self.generic_visit(node)
+            if node.orelse and isinstance(node.test, ast.UnaryOp) and isinstance(node.test.op, ast.Not):
+                node.test, node.body, node.orelse = node.test.operand, node.orelse, node.body
+            return node
+    return _Canon().visit(tree)
+
+
 class ProgramDB:
     def __init__(self, repo: str = None, pkg_rel: str = PKG_REL, overrides: Dict[str, str] = None):
         """overrides: module short name -> source text, replacing (or adding to) what is on disk; used only for
@@ -327,12 +339,12 @@ class ProgramDB:
                     tree = ast.parse(src, filename=path)
                 except SyntaxError as e:
                     raise AnalysisError(f"override of {name} does not parse: {e}")
-            mod = ModuleInfo(name, path, src, tree)
+            mod = ModuleInfo(name, path, src, canonical_branches(tree))
             self.modules[name] = mod
         for name, src in self.source_overrides.items():
             if name not in self.modules:
                 path = os.path.join(self.pkg_dir, name + ".py")
-                self.modules[name] = ModuleInfo(name, path, src, ast.parse(src, filename=path))
+                self.modules[name] = ModuleInfo(name, path, src, canonical_branches(ast.parse(src, filename=path)))
         for mod in self.modules.values():
             self._index_module(mod)
         self._resolve_bases()
